@@ -10,9 +10,34 @@ package fatops
 
 import (
 	"encoding/hex"
+	"fmt"
 	"io"
+	"strings"
 	"sync"
 )
+
+// plainListing renders the raw reader's tree without cluster numbers: names, nesting, sizes and
+// content digests (the format of the driver's `specListing`).
+func plainListing(rep *rawReport, d io.ReaderAt) string {
+	var out []string
+	var walk func(n *rawNode, pre string)
+	walk = func(n *rawNode, pre string) {
+		for _, ch := range n.Children {
+			p := ch.Name
+			if pre != "" {
+				p = pre + "/" + ch.Name
+			}
+			if ch.IsDir {
+				out = append(out, p+"|d")
+				walk(ch, p)
+			} else {
+				out = append(out, fmt.Sprintf("%s|f|%d|%d", p, ch.Size, digestBytes(rep.content(d, ch))))
+			}
+		}
+	}
+	walk(rep.Root, "")
+	return strings.Join(out, ";")
+}
 
 // maskDirTimes zeroes create time/date, access date, modify time/date of every 8.3 entry.
 func maskDirTimes(b []byte) []byte {
